@@ -125,6 +125,16 @@ def run(tier):
     binary = vlib.build_harness()
     # design level
     r = vlib.tlc_ok(vlib.tlc("Conn", cfg="Conn.cfg", workers=4, timeout=300), "Conn model")
+    # with the keep-alive goroutine of the reconnecting client; the designs before fixes F5 / F17 are refuted
+    rka = vlib.tlc_ok(vlib.tlc("Conn", cfg="ConnKA.cfg", workers=4, timeout=300), "Conn model with keep-alive")
+    kacfg = open(os.path.join(vlib.SPEC, "ConnKA.cfg")).read()
+    for sw in (("BugKaNoDiscCheck",), ("BugKaNoCtxCheck", "BugKaNoDiscCheck")):
+        c2 = kacfg
+        for x in sw:
+            c2 = c2.replace("%s = FALSE" % x, "%s = TRUE" % x)
+        rb = vlib.tlc("Conn", cfg="KB.cfg", files={"KB.cfg": c2}, workers=1, timeout=300)
+        if rb.violated != "ErrNilAfterGraceful":
+            raise vlib.Infra("non-vacuity: Conn with %s not refuted (%s)" % (sw, rb.violated))
     f14 = vlib.tlc("Conn", cfg="ConnF14.cfg", workers=1, timeout=300)
     if f14.violated != "NoClosedAfterDisconnected":
         raise vlib.Infra("Conn model: F14 configuration no longer violates NoClosedAfterDisconnected (%s)" % f14.violated)
@@ -168,8 +178,8 @@ def run(tier):
             verd.witness(v["o"], where, "scenario %s: %s" % (sid, " ".join(dg)), {"scenario": byid[sid], "observer": v["o"], "trace": res["evs"]})
     rc = verd.finish()
     vlib.write_evidence(PID, tier, "model_checking", {
-        "states": r.states + totals["states"], "transitions": r.generated + totals["states"],
-        "traces_validated_against_impl": nval, "model_states": r.states,
+        "states": r.states + rka.states + totals["states"], "transitions": r.generated + rka.generated + totals["states"],
+        "traces_validated_against_impl": nval, "model_states": r.states + rka.states,
         "scenarios": {"base": len(base), "held_callback": len(hold), "reconnecting_with_keepalive": len(rec)},
         "evaluations": len(results), "distinct_nontrivial": len(distinct),
         "rule": "CONNACK behaviour x end causes (single, sequential pairs, racing pairs repeated) on one BaseClient; reconnecting client with keep-alive over cuts/peer closes; distinct = distinct observed callback/sample logs",
